@@ -730,7 +730,15 @@ def run(case, res):
         blk0 = bb.block
         snap = (set(blk0.logic), set(blk0.wirevector_set), dict(blk0.wirevector_by_name),
                 {id(w): (w.name, w.bitwidth, getattr(w, '_block', None)) for w in blk0.wirevector_set})
-        want = inject(bb, script, site, rng)
+        if si % 4 == 2:
+            # the user switched debug mode on half way: only the wires made from here on carry a
+            # recorded call stack
+            pyrtl.set_debug_mode(True)
+            res.probes.hit('debug_mode_switched_on_mid_build')
+        try:
+            want = inject(bb, script, site, rng)
+        finally:
+            pyrtl.set_debug_mode(False)
         if want is None:
             res.probes.hit('site_not_applicable')
             continue
